@@ -97,8 +97,6 @@ Proof.
     apply andb_true_iff in H; destruct H as [H1 H2]; now rewrite IHl, IHr.
 Qed.
 
-Lemma T_no_then : (forall x t, TI x t -> no_then t = true) /\ (forall g t, T g t -> no_then t = true).
-Proof. apply TI_T_ind; intros; simpl; auto. destruct o; simpl; now rewrite H, H0. Qed.
 
 (* whatever tree the parser's resolution admits for the built forest, its Boolean value is that of the built tree *)
 Theorem built_value_via_parser g t its e' beta : T g t -> items_of g = Some its -> Rc its e' ->
